@@ -448,6 +448,7 @@ def evalPointerFault (outs : List String) : Verdict :=
   match kv? outs "head1", kv? outs "tail1", kv? outs "between1", kv? outs "restart", kv? outs "head2", kv? outs "tail2", kv? outs "between2" with
   | some h1, some t1, some b1, some rs, some h2, some t2, some b2 =>
     let dangling := fun (x : String) => (x.splitOn "!").length > 1
+    let h1 := if h1.startsWith "wiped+" then (h1.drop 6).toString else h1
     if dangling h1 || dangling t1 || h1 == "none" || t1 == "none" then .prop "c06_pointers_resolve" s!"after the refused pointer write: Head={h1} Tail={t1}" else
     if b1 != "ok" then .prop "c06_between_retrievable" s!"running store: {b1} (Tail={t1} Head={h1})" else
     if rs != "ok" then .prop "c06_restart_ok" s!"restart={rs}" else
@@ -456,10 +457,20 @@ def evalPointerFault (outs : List String) : Verdict :=
     if b2 != "ok" then .prop "c06_between_retrievable" s!"after restart: {b2}" else .ok "pointerfault"
   | _, _, _, _, _, _, _ => .bad "pointerfault fields"
 
+/-- `kind=flushvsdelete`: a flush starting while the deleter is inside the deletion of an unflushed header -/
+def evalFlushVsDelete (outs : List String) : Verdict :=
+  match kv? outs "parked", kv? outs "delete", kv? outs "retrievable", kv? outs "afterrestart" with
+  | some "yes", some d, some v1, some v2 =>
+    if d != "ok" then .prop "c08_accepts_valid_ranges" s!"DeleteRange(1,3)={d}" else
+    if v1 != "3,4,5,6" || v2 != "3,4,5,6" then .prop "c08_removed" s!"DeleteRange(1,3) returned nil; retrievable afterwards: {v1}, after a restart: {v2} (expected 3,4,5,6)" else .ok "flushvsdelete"
+  | some _, _, _, _ => .ok "flushvsdelete-notparked"
+  | _, _, _, _ => .bad "flushvsdelete fields"
+
 /-- DeleteRange(1,to) on 1..n through the PARALLEL path with a refusing handler, then a retry with the handler
 healed (`kind=parfail`).  Pure predicates from the texts of C08 / C14 / C04 on the implementation's observation. -/
 def evalParFail (tag : String) (ins outs : List String) : Verdict :=
   if kv? ins "kind" == some "pointerfault" then evalPointerFault outs else
+  if kv? ins "kind" == some "flushvsdelete" then evalFlushVsDelete outs else
   if kv? ins "kind" == some "stopsync" then evalStopSync ins outs else
   if kv? ins "kind" == some "readduringdelete" then evalReadDuringDelete ins outs else
   if kv? ins "kind" == some "queued" then evalQueued ins outs else
